@@ -24,7 +24,39 @@ EXPLANATION = (
     "entropy, gauge independence in full, or minimality.")
 
 
+def rule_height_max_whole(ctx: Ctx) -> None:
+    """height.max-whole: height_max is the maximum of the height function over *every* cut position (that is the emitter budget).  It takes
+    max over the whole dictionary height_dict returns — `h[max(h, key=h.get)]`, `max(h.values())`, `max(h[k] for k in h)` — not over a range
+    of positions: the profile of a pure state is not mirror symmetric in the emission order (only S(A) = S(complement of A) holds, and the
+    complement of a prefix is a suffix, not a prefix)."""
+    repo = ctx.repo
+    HF = "graphiq/backends/stabilizer/functions/height.py"
+    m = repo.module(HF)
+    fn = repo.anchor(HF, "height_max")
+    ctx.touch(m, fn)
+    hd = [a.targets[0].id for a in ast.walk(fn) if isinstance(a, ast.Assign) and isinstance(a.value, ast.Call) and (call_attr(a.value) or getattr(a.value.func, "id", "")) == "height_dict"
+          and isinstance(a.targets[0], ast.Name)]
+    if len(hd) != 1:
+        raise AnalysisError("height_max: the dictionary returned by height_dict was not found")
+    H = hd[0]
+    mx = [c for c in ast.walk(fn) if isinstance(c, ast.Call) and isinstance(c.func, ast.Name) and c.func.id == "max" and c.args]
+    if len(mx) != 1:
+        raise AnalysisError("height_max: a single max(...) expected")
+    a0 = mx[0].args[0]
+    whole = norm(a0) in (H, f"{H}.values()", f"{H}.keys()", f"list({H}.values())") or \
+        (isinstance(a0, (ast.GeneratorExp, ast.ListComp)) and len(a0.generators) == 1 and not a0.generators[0].ifs
+         and norm(a0.generators[0].iter) in (H, f"{H}.values()", f"{H}.keys()", f"{H}.items()"))
+    if whole:
+        ctx.ok("height.max-whole", m, mx[0], what="maximum over every cut position")
+    else:
+        ctx.fail("height.max-whole", m, mx[0],
+                 f"height_max takes `{short(mx[0], 70)}`: the maximum over part of the cut positions; the widest cut may lie anywhere along the emission order "
+                 f"(the 7-vertex graph 0-1, 1-2, 2-3, 3-4, 3-5, 4-5, 4-6, 5-6 has its maximum 2 past the midpoint), so the emitter budget is under-reported",
+                 func="height_max", construct="height_max: maximum over a subset of the positions")
+
+
 def run(ctx: Ctx) -> None:
+    rule_height_max_whole(ctx)
     from .c02 import rule_index_space
     rule_index_space(ctx)   # the deterministic solver behind this property: emitter register numbers vs tableau positions
     from ..rules import tableau as _tbx
@@ -306,6 +338,7 @@ def _anc(n):
 
 
 KNOCKOUTS = [
+    Knockout("height-max-over-first-half", "graphiq/backends/stabilizer/functions/height.py", sub_nth("    h_max = h_dict[max(h_dict, key=h_dict.get)]\n", "    h_max = max(h_dict[position] for position in range(-1, len(h_dict) // 2))\n", 0), "height.max-whole", "subset of the positions"),
     Knockout("rref-fast-path-clears-one-kind", STABF_, sub_once("    elif not pauli_y_list:  # pauli x and z exist in the column below pivot\n", "    elif not pauli_y_list:  # pauli x and z exist in the column below pivot\n        if pauli_x_list[0] == pivot[0] and pauli_z_list[0] == pivot[0] + 1:\n            for row_j in pauli_z_list[1:]:\n                tableau = tab_row_sum(tableau, pivot[0] + 1, row_j)\n            pivot = [pivot[0] + 2, pivot[1] + 1]\n            return tableau, pivot\n"), "rref.inline-step", "inline step"),
     Knockout("bit-packing-int64", "graphiq/utils/relabel_module.py", sub_once("        n_emit = height_max(graph=g)\n", "        n_emit = height_max(graph=g)\n        packed = adj.astype(int) @ (1 << np.arange(adj.shape[0]))\n"), "num.fixed-width", "emitter_sorted"),
     Knockout("height-stops-at-first-zero", HEIGHT, sub_once("        height_list.append(height)\n    return height_list", "        height_list.append(height)\n        if height == 0:\n            break\n    height_list.extend([0] * (n_qubits - len(height_list)))\n    return height_list"), "height.formula", "positions not all evaluated"),
